@@ -95,9 +95,12 @@ def sweep(run, thorough):
                 continue
             # x87: a dynamic register cannot select the st0-specific form; `fadd st(0), st` and `fadd st, st(0)` are the same instruction on the same registers
             norm = lambda lines: [str(x).replace("st(0)", "st") for x in (lines or [])]      # noqa: E731
+            # protected mode has no upper register half: the one-byte 90 IS `xchg eax, eax` there (llvm prints it as nop)
+            if mode == "x86" and dres[i][1] == b"\x90" and [str(x) for x in (rl or [])] == ["nop"]:
+                rl = ["xchg eax, eax"]
             if (rs, norm(rl)) != (ls, norm(ll)):
                 e = pl[k][0]
-                run.violation("failing-input", {"kind": "x64-runtime-register-differs", "args": e["args"], "flags": sorted(xs.flag_names(e)), "slot": pl[k][3]},
+                run.violation("failing-input", {"kind": "x64-runtime-register-differs", "mnemonic": e["m"], "mode": pl[k][1], "args": e["args"], "flags": sorted(xs.flag_names(e)), "slot": pl[k][3], "value": n},
                               f"dynasm!(ops {dyn_lines[k]}) with v = {n} assembles to {dres[i][1].hex()} = `{rl}`, the literal register to {lit_bytes[(k, n)].hex()} = `{ll}`",
                               {"stream": "dyn", "case": cases[case_of[k]], "values": [n], "literal": lit_reqs[lit_index.index((k, n))]})
     for i, (k, n) in enumerate(dmeta):
